@@ -27,6 +27,10 @@ CLAIMED = {
     text="Same specification restricted to the C06 operation set: TLC enumerates every (old extents, new extents) pair within the bounds for reextent with and without a fill value, reshape to every extents of equal element count, clear, assignment from {}, assign(first,last) and initializer-list assignment, interleaved with copies and writes; the prescribed values (common part kept, fill or value-initialised elsewhere) are compared with real arrays over int, std::string and a trivially-copyable-but-not-trivially-default-constructible struct allocated from pattern-filled memory; reextent to the same extents must keep the storage.",
     note="bounded: D 1..4, extents 0..3 (D<=2), 0..2 (D=3), 0..1 (D=4) in the quick tier; array::assign(extensions, value) does not compile at the pinned commit and is not exercised.",
     ref="DESIGN.md section 5 C06"),
+ "C07": dict(
+    text="specs/Compare.tla defines == (same extents and equal elements) and < (lexicographic over the leading dimension, recursively, proper prefix smaller) on operand values; TLC checks trichotomy, irreflexivity, antisymmetry, transitivity, ==-transitivity and <=/>= consistency on every triple within the bounds, and emits every pair with the six prescribed results; each pair is materialised as array, const array, array_ref, rotated/strided view, padded sub-block view and array<long> (36 combinations, plus aliasing views of one storage) and all six real operators are evaluated in both argument orders.",
+    note="bounded: D 1..3 (4 in thorough), extents 0..3, <= 6 elements per operand, values {0,1(,2)}; for empty operands only ==/!= consistency is demanded; ordering between different element types is not provided by the library and not demanded; D=0 not covered.",
+    ref="DESIGN.md section 5 C07"),
 }
 
 props = [json.loads(l) for l in open(os.path.join(V, "properties.jsonl"))]
